@@ -162,7 +162,7 @@ Proof.
     rewrite Hf. eexists; reflexivity.
   - rewrite Hf. eexists; reflexivity.
   - rewrite Hf. eexists; reflexivity.
-  - destruct (ueval (e_caller en) e) as [[k| | | | | | | | | | |]|]; try discriminate Hf.
+  - destruct (ueval (e_caller en) e) as [[k| | | | | | | | | | | |]|]; try discriminate Hf.
     destruct (auto_deref w); try discriminate Hf. destruct (Z.ltb k 0); [discriminate Hf|].
     rewrite Hf. eexists; reflexivity.
 Qed.
@@ -1203,7 +1203,7 @@ Section Master.
       destruct (brute_force (List.length vs) rest M); inversion Hf; subst; eexists; reflexivity.
     - (* map *)
       cbn [expand exec]. rewrite run_fix_eq, run_list_app. cbn [frontier] in Hf.
-      destruct (auto_deref v) as [| | | | | | | | | | |kvs] eqn:Ev; try discriminate.
+      destruct (auto_deref v) as [| | | | | | | | | | | |kvs] eqn:Ev; try discriminate.
       change (map _ entries) with (map (spec_entry (e_caller en) (e_units en) id kvs) entries) in Hf.
       destruct (concat_opt (map (spec_entry (e_caller en) (e_units en) id kvs) entries)) as [es|] eqn:Ees; [|discriminate].
       change (map _ entries) with (map (entry_stmt e id) entries).
